@@ -212,6 +212,7 @@ func (s asciiString) ToInteger() int64 {
 		if err == nil {
 			return floatToIntClip(f)
 		}
+		return 0
 	}
 	return i
 }
